@@ -79,7 +79,7 @@ class SaveSim:
     properties = ['C17']
 
     def budget(self, prop, tier):
-        return {'quick': {'runs': 1400, 'seconds': 55}, 'thorough': {'runs': 60000, 'seconds': 600}}[tier]
+        return {'quick': {'runs': 2800, 'seconds': 50}, 'thorough': {'runs': 60000, 'seconds': 600}}[tier]
 
     def rule(self, prop):
         return ('plans drawn from VERIF_SEED: world (any convention, small) x generated time-units string x process TZ x 1-3 '
